@@ -605,6 +605,8 @@ class Ref:
                     self.pre.add(bor(bnot(rv.rows[i].present), band(bnot(v.unk), bnot(v.null))))
             return RelVal(rv.cols, rv.rows, (descs, keys))
         if k == "take":
+            if t.lo in (None, 1) and t.hi is None:
+                return rv          # `take 1..`: every position qualifies, with or without an order
             w = win or WinCtx(rv.rows, None, rv.order, None)
             if w.order is None and not getattr(t, "any_ok", False):
                 raise Unsupported("take without an order in effect: any rows are correct")
@@ -731,6 +733,8 @@ class Ref:
             if tt.k == "sort":
                 cur = self.step(cur, tt, None)
                 continue
+            if tt.k == "take" and cur.order is None and tt.lo in (None, 1) and tt.hi is None:
+                continue           # `take 1..` keeps every row of every group
             if tt.k == "take" and cur.order is None:
                 # `group {all columns} (take 1)` is the documented DISTINCT idiom
                 if set(kidx) == set(range(len(cur.cols))) and tt.lo in (None, 1) and tt.hi == 1:
